@@ -1,5 +1,5 @@
 @unit cw1whitelist
-@shim core.rs cw_utils.rs cw2.rs std_adapters.rs
+@shim core.rs cw_utils.rs std_more.rs cw2.rs std_adapters.rs
 @properties C07 C16 C17
 
 @include inc/cw1_whitelist.vsi
@@ -88,3 +88,15 @@ pub proof fn lemma_c17_frozen_forever(st: Seq<Raw>, calls: Seq<Call>, i: int, j:
         if i < j { lemma_c17_frozen_forever(st, calls, i, j - 1); }
     }
 }
+
+// ===================================================================== the query entry point routes every message to its query function
+@enum contracts/cw1-whitelist/src/msg.rs QueryMsg [noderive]
+impl JsonT for AdminListResponse { uninterp spec fn json(self) -> Seq<u8>; uninterp spec fn unjson(b: Seq<u8>) -> Option<Self>; }
+impl JsonT for CanExecuteResponse { uninterp spec fn json(self) -> Seq<u8>; uninterp spec fn unjson(b: Seq<u8>) -> Option<Self>; }
+@fn contracts/cw1-whitelist/src/contract.rs query
+@ensures C16.query_routes C07 C17
+    r is Ok ==> match msg {
+        QueryMsg::AdminList {} => exists|x: AdminListResponse| r->Ok_0@ == x.json() && call_ensures(query_admin_list, (deps,), Ok::<AdminListResponse, StdError>(x)),
+        QueryMsg::CanExecute { sender, msg } => exists|x: CanExecuteResponse| r->Ok_0@ == x.json() && call_ensures(query_can_execute, (deps, sender, msg), Ok::<CanExecuteResponse, StdError>(x)),
+    }
+@end
